@@ -10,6 +10,8 @@ import (
 	_ "verifharness/internal/props/c06"
 	_ "verifharness/internal/props/c07"
 	_ "verifharness/internal/props/c08"
+	_ "verifharness/internal/props/c10"
+	_ "verifharness/internal/props/c09"
 	_ "verifharness/internal/props/c11"
 	_ "verifharness/internal/props/c12"
 	_ "verifharness/internal/props/c13"
